@@ -5,7 +5,8 @@
    `... on`).  For an accepted document it returns the list of (definition kind, optional name).
 
    Result type: RgOk / RgNo (not in the grammar) / RgOut (out of fuel).  RgOut is excluded for the fuel the
-   top-level functions use (fuel = token count + 1) by Parse/RefGrammarFuel.v (`rg_fuel_enough`).
+   top-level functions use (fuel = token count, + 1 for the nested families) by Parse/RefProofsTS.v
+   (`rg_document_fuel`, Props/C05.v `C05_rg_fuel_enough`).
 
    Definitions only (extracted).  Every name carries the prefix rg_ / Rg (one flat extraction).
 
